@@ -20,9 +20,10 @@ type caseSpec struct {
 	Active   bool   `json:"active"`
 	Dir      string `json:"dir,omitempty"`    // fault: "in" (peer->library stream) | "out" (library->peer stream)
 	Offset   int    `json:"offset,omitempty"` // fault: placed right after this many bytes of that stream
-	Fault    string `json:"fault,omitempty"`  // close | reset | stall
+	Fault    string `json:"fault,omitempty"`  // close | reset | stall (stops reading and sending) | mute (keeps reading, never sends again)
 	Refusals int    `json:"refusals"`         // failed dials / failed listens before the network lets the library back in
 	Cfg      int    `json:"cfg"`              // index into the backoff configurations
+	TS       int    `json:"ts,omitempty"`     // index into the timer sets
 	Arg      int    `json:"arg,omitempty"`    // select-reject: status; close-in-loop: failed attempts before Close (+100: accept afterwards)
 }
 
@@ -34,7 +35,7 @@ type result struct {
 	harness string
 	outcome string
 	sample  map[string]any
-	inLen   int   // record: stream lengths and frame ends
+	inLen   int // record: stream lengths and frame ends
 	outLen  int
 	inEnds  []int
 	outEnds []int
@@ -56,9 +57,17 @@ var recorded = map[bool]*recording{}
 // injected. It returns "" or a description of a harness-level surprise (the fault-free part
 // of the session did not go as the script expects).
 func (x *exec) play() (surprise string) {
+	if s := x.connect(); s != "" {
+		return s
+	}
+	return x.session()
+}
+
+// connect opens the connection and brings TCP up (generation 0).
+func (x *exec) connect() (surprise string) {
 	w := x.w
 	active := x.cs.Active
-	x.phase = "connect"
+	x.phase = x.pfx + "connect"
 	if err := w.Open(); err != nil {
 		return fmt.Sprintf("Open: %v", err)
 	}
@@ -81,10 +90,19 @@ func (x *exec) play() (surprise string) {
 		w.Settle()
 		x.tUp = w.Now()
 	}
+	return ""
+}
+
+// session runs the canonical session on the link that has just come up (x.tUp is set; an
+// active library has already written its Select.req).
+func (x *exec) session() (surprise string) {
+	w := x.w
+	active := x.cs.Active
+	x.phase = x.pfx + "connect"
 	if x.gateFiredNow() { // outbound offset 0 of the active role: the very first write
 		return ""
 	}
-	if x.cs.Kind == "fault" && x.cs.Dir == "in" && x.cs.Offset == 0 {
+	if x.inArmed() && x.cs.Offset == 0 {
 		x.injectFault()
 		w.Settle()
 		return ""
@@ -95,7 +113,7 @@ func (x *exec) play() (surprise string) {
 	}
 
 	// select
-	x.phase = "select"
+	x.phase = x.pfx + "select"
 	if active {
 		fs := x.read()
 		if len(fs) != 1 || fs[0].SType != peer.SSelectReq {
@@ -133,7 +151,7 @@ func (x *exec) play() (surprise string) {
 		x.faulted, x.tF = true, w.Now()
 		return ""
 	}
-	if x.cs.Kind == "close-in-loop" || x.cs.Kind == "double" {
+	if x.cs.Kind == "close-in-loop" || x.cs.Kind == "double" || (x.cs.Kind == "fault2" && x.curGen == 0) {
 		x.gap()
 		x.faulted, x.tF, x.immediate = true, w.Now(), true
 		_ = x.p.Close()
@@ -142,7 +160,7 @@ func (x *exec) play() (surprise string) {
 	}
 
 	// data, library -> peer (primary with reply)
-	x.phase = "data-out"
+	x.phase = x.pfx + "data-out"
 	x.gap()
 	var rep *hsms.DataMessage
 	var serr error
@@ -167,7 +185,7 @@ func (x *exec) play() (surprise string) {
 	}
 
 	// data, peer -> library (primary with reply from the handler)
-	x.phase = "data-in"
+	x.phase = x.pfx + "data-in"
 	x.gap()
 	sys := x.nextPeerSys()
 	if !x.in(peer.Data(libSession, 1, 3, true, sys, []byte{0x41, 0x02, 'e', 'f'})) {
@@ -179,7 +197,7 @@ func (x *exec) play() (surprise string) {
 	}
 
 	// linktest, peer -> library
-	x.phase = "linktest"
+	x.phase = x.pfx + "linktest"
 	x.gap()
 	sys = x.nextPeerSys()
 	if !x.in(peer.Ctrl(peer.SLinktestReq, 0xFFFF, 0, 0, sys)) {
@@ -197,45 +215,55 @@ func (x *exec) play() (surprise string) {
 // predict returns the protocol timer that covers the injected fault and the virtual time at
 // which the library must drop the link.
 func (x *exec) predict() (timer string, at time.Duration) {
+	ts := x.ts
 	if x.immediate {
 		return "immediate", x.tF
 	}
-	switch x.cs.Kind {
-	case "mute": // Linktest.req is written but never answered: T6 of the linktest transaction
-		return "linktest-T6", x.tLastFrame + cLT + x.t6
-	case "active-t7":
-		return "T7", x.tUp + cT7
+	if x.cs.Kind == "active-t7" {
+		return "T7", x.tUp + ts.T7
 	}
-	// stall
+	// What the auto-linktest does to a dead Selected link: it probes one idle interval after the
+	// last frame in either direction; on a peer that no longer reads the probe's write blocks
+	// until the write timeout, on a peer that reads but is mute the probe is written and its
+	// T6 expires (fail threshold 1).
+	idle := func(lastFrame time.Duration) (string, time.Duration) {
+		if x.cs.Fault == "stall" {
+			return "linktest", lastFrame + ts.LT + ts.WT
+		}
+		return "linktest-T6", lastFrame + ts.LT + ts.T6
+	}
+	if x.cs.Kind == "mute" {
+		return idle(x.tLastFrame)
+	}
 	if x.cs.Dir == "in" {
 		switch {
 		case x.partialIn: // a frame was begun and the next byte never comes
-			return "T8", x.tF + cT8
+			return "T8", x.tF + ts.T8
 		case !x.selected && x.cs.Active: // the library's Select.req is never answered
-			return "T6", x.tSelReq + x.t6
+			return "T6", x.tSelReq + ts.T6
 		case !x.selected: // nobody selects the passive library
-			return "T7", x.tUp + cT7
+			return "T7", x.tUp + ts.T7
 		}
-		// Selected, nothing outstanding that drops the link (T3 only fails the transaction): the
-		// auto-linktest probes after one idle interval and its write blocks on the stalled peer
-		return "linktest", x.tLastFrame + cLT + cWT
+		// Selected, nothing outstanding that drops the link (T3 only fails the transaction)
+		return idle(x.tLastFrame)
 	}
 	rec := recorded[x.cs.Active]
 	for i, e := range rec.outEnds {
-		if x.cs.Offset == e {
-			if x.cs.Active && i == 0 { // the complete Select.req is out, no answer
-				return "T6", x.tF + x.t6
+		if x.cs.Offset == e || (x.cs.Fault == "mute" && x.cs.Offset < e) {
+			// a complete frame is out (a mute peer lets the frame that was being written complete)
+			if x.cs.Active && i == 0 { // the Select.req, never answered
+				return "T6", x.tF + ts.T6
 			}
-			return "linktest", x.tF + cLT + cWT // a complete frame is out (Selected): idle from now on
+			return idle(x.tF) // Selected and idle from now on
 		}
 	}
-	return "write-timeout", x.tF + cWT // the library's write is blocked part-way (or before its first byte)
+	return "write-timeout", x.tF + ts.WT // the library's write is blocked part-way (or before its first byte)
 }
 
 // position class of the fault for outcome names
 func (x *exec) posClass() string {
 	cs := x.cs
-	if cs.Kind != "fault" {
+	if cs.Kind != "fault" && cs.Kind != "fault2" {
 		return cs.Kind
 	}
 	ends := recorded[cs.Active].inEnds
@@ -262,18 +290,19 @@ func (x *exec) failf(key, format string, a ...any) *failure {
 func (x *exec) describe() string {
 	cs := x.cs
 	switch cs.Kind {
-	case "fault":
-		return fmt.Sprintf("%s library, %s after byte %d of the %s stream (phase %s, %s), %d refusals, backoff(%v x%v, T5=%v)",
-			roleName(cs.Active), cs.Fault, cs.Offset, map[string]string{"in": "peer->library", "out": "library->peer"}[cs.Dir], x.phase, x.posClass(), cs.Refusals, x.bc.Initial, x.bc.Mult, cT5)
+	case "fault", "fault2":
+		gen := ""
+		if cs.Kind == "fault2" {
+			gen = " of the re-established link (first link: closed by the peer while Selected)"
+		}
+		return fmt.Sprintf("%s library, %s after byte %d of the %s stream%s (phase %s, %s), %d refusals, backoff(%v x%v, T5=%v), timer set %d",
+			roleName(cs.Active), cs.Fault, cs.Offset, map[string]string{"in": "peer->library", "out": "library->peer"}[cs.Dir], gen, x.phase, x.posClass(), cs.Refusals, x.bc.Initial, x.bc.Mult, cT5, cs.TS)
 	}
 	return fmt.Sprintf("%s library, scenario %s(arg=%d), %d refusals, backoff(%v x%v, T5=%v)", roleName(cs.Active), cs.Kind, cs.Arg, cs.Refusals, x.bc.Initial, x.bc.Mult, cT5)
 }
 
 func (x *exec) noRecoveryKey() string {
-	f := x.cs.Fault
-	if x.cs.Kind != "fault" {
-		f = x.cs.Kind
-	}
+	f := x.faultName()
 	return fmt.Sprintf("no-recovery:%s:%s:%s", roleName(x.cs.Active), f, x.phase)
 }
 
@@ -282,7 +311,7 @@ func (x *exec) noRecoveryKey() string {
 func (x *exec) awaitDrop(gen int) (tD time.Duration, fail *failure) {
 	w := x.w
 	timer, want := x.predict()
-	horizon := want - w.Now() + 20*time.Second
+	horizon := want - w.Now() + 30*time.Second
 	for {
 		g, ok := waitCh(x.closedCh, horizon)
 		if !ok {
@@ -319,8 +348,11 @@ func (x *exec) awaitDrop(gen int) (tD time.Duration, fail *failure) {
 }
 
 func (x *exec) faultName() string {
-	if x.cs.Kind == "fault" {
+	if x.cs.Kind == "fault" || (x.cs.Kind == "fault2" && x.curGen == 1) {
 		return x.cs.Fault
+	}
+	if x.cs.Kind == "fault2" {
+		return "close"
 	}
 	return x.cs.Kind
 }
@@ -401,6 +433,7 @@ func (x *exec) awaitBack(tD time.Duration, base, refusals int, priorReconnects u
 		x.p, x.prs, w.Peer = p, peer.Parser{}, p
 		w.Settle()
 	}
+	x.tUp, x.tSelReq = w.Now(), w.Now()
 	return nil, gaps
 }
 
@@ -475,7 +508,7 @@ func (x *exec) closeAndWatch() *failure {
 	w.Advance(10 * cT5)
 	what := map[bool]string{true: "dial", false: "listen"}[x.cs.Active]
 	if log := x.attemptLog(); len(log) != n {
-		return x.failf(what+"-after-close", "%d %s attempt(s) after Close returned (first at t=%v)", len(log)-n, what, log[n].At)
+		return x.failf(what+"-after-close", "%d %s attempt(s) after Close() was called (first at t=%v)", len(log)-n, what, log[n].At)
 	}
 	if w.Net.LiveListener() != nil {
 		return x.failf("listener-after-close", "a listening socket is still open 10*T5 after Close")
@@ -541,29 +574,35 @@ func (x *exec) runFault() (res result) {
 		res.harness = x.describe() + ": the fault position was never reached"
 		return res
 	}
-	rounds := 1
-	if cs.Kind == "double" {
-		rounds = 2
-	}
-	gen := 0
-	timer, _ := x.predict()
+	gen, round := 0, 1
+	var timer string
 	var allGaps [][]time.Duration
 	var tDs []time.Duration
-	for round := 1; round <= rounds; round++ {
+	for {
 		base := len(x.attemptLog())
 		x.listenersBefore = len(w.Net.Listeners)
 		drain(x.acceptedCh)
 		drain(x.listenedCh)
-		x.setRefusals(cs.Refusals)
+		refusals := cs.Refusals
+		if cs.Kind == "fault2" && round == 1 {
+			refusals = 0
+		}
+		x.setRefusals(refusals)
+		timer, _ = x.predict()
 		tD, f := x.awaitDrop(gen)
 		if f != nil {
 			res.fail = f
 			return res
 		}
 		tDs = append(tDs, tD)
-		old := x.p
-		_ = old.Close()
-		f, gaps := x.awaitBack(tD, base, cs.Refusals, uint64(round-1))
+		_ = x.p.Close()
+		if cs.Kind == "fault2" && round == 1 {
+			// from now on the script is on the second link (an active library writes its Select.req,
+			// and may hit the outbound cut, as soon as the re-dial is accepted)
+			x.curGen, x.pfx = 1, "gen2-"
+			x.faulted, x.immediate, x.partialIn, x.selected, x.inCount = false, false, false, false, 0
+		}
+		f, gaps := x.awaitBack(tD, base, refusals, uint64(round-1))
 		allGaps = append(allGaps, gaps)
 		if f != nil {
 			if f.key == "harness" {
@@ -574,16 +613,36 @@ func (x *exec) runFault() (res result) {
 			return res
 		}
 		gen++
+		if cs.Kind == "fault2" && round == 1 {
+			// the canonical session again, on the re-established link, this time with the fault
+			if s := x.session(); s != "" {
+				if x.faulted {
+					res.fail = x.failf("canonical-session", "%s", s)
+				} else {
+					res.fail = x.failf(x.noRecoveryKey(), "the canonical session on the re-established link: %s", s)
+				}
+				return res
+			}
+			if !x.faulted {
+				res.harness = x.describe() + ": the fault position was never reached on the second link"
+				return res
+			}
+			round++
+			continue
+		}
 		if f := x.verifySession(uint64(round)); f != nil {
 			res.fail = f
 			return res
 		}
-		if round < rounds { // second involuntary drop of the same open connection
+		if cs.Kind == "double" && round == 1 { // second involuntary drop of the same open connection
 			x.gap()
 			x.faulted, x.tF, x.immediate = true, w.Now(), true
 			_ = x.p.Close()
 			w.Settle()
+			round++
+			continue
 		}
+		break
 	}
 	if f := x.closeAndWatch(); f != nil {
 		res.fail = f
